@@ -140,11 +140,11 @@ func HeaderChecksum(version, ckSize, entropy int, transforms uint64, blockSize i
 	c := H * seed
 	c ^= H * uint32(^uint64(ckSize))
 	c ^= H * uint32(^uint64(entropy))
-	c ^= H * uint32((^transforms) >> 32)
+	c ^= H * uint32((^transforms)>>32)
 	c ^= H * uint32(^transforms)
 	c ^= H * uint32(^uint64(blockSize))
 	if szMask > 0 {
-		c ^= H * uint32((^size) >> 32)
+		c ^= H * uint32((^size)>>32)
 		c ^= H * uint32(^size)
 	}
 	c = (c >> 23) ^ (c >> 3)
